@@ -276,6 +276,11 @@ class SBytes:
             out.append(t.values[x] if isinstance(x, int) else t[SInt(x, 8)])
         return _norm(SBytes(out))
 
+    def hex(self):
+        from .hashenv import m_hexlify
+        h = m_hexlify(self)
+        return h.decode("ascii") if isinstance(h, (SBytes, bytes)) else h
+
     def upper(self):
         return self.translate(bytes(range(256)).upper())
 
@@ -373,6 +378,17 @@ def _norms(s):
 
 def _t8(x):
     return z3.BitVecVal(x, 8) if isinstance(x, int) else x
+
+
+def _char8(c):
+    """a character as a byte (raises ValueError for a character that may lie outside Latin-1: not a hex digit anyway)"""
+    if isinstance(c, str):
+        if ord(c) > 255:
+            raise ValueError("non-hexadecimal number found in fromhex() arg")
+        return ord(c)
+    if bool(sym.SBool(z3.UGE(c, 256))):
+        raise ValueError("non-hexadecimal number found in fromhex() arg")
+    return z3.Extract(7, 0, c)
 
 
 def _t21(x):
@@ -1053,7 +1069,32 @@ class bytes_(metaclass=_BytesMeta):
             return bytes(items)
         return SBytes(items)
 
-    fromhex = bytes.fromhex
+    @staticmethod
+    def fromhex(text):
+        """bytes.fromhex: ASCII whitespace between byte pairs is skipped, anything else that is not a hex digit pair is a
+        ValueError (CPython skips whitespace only *between* pairs, never inside one)"""
+        if isinstance(text, str):
+            return bytes.fromhex(text)
+        if not getattr(text, "_sstr_", False):
+            raise TypeError("fromhex() argument must be str, not %s" % type(text).__name__)
+        from .hashenv import m_unhexlify
+        ws = " \t\n\r\x0b\x0c"
+        out, i, n = [], 0, len(text.c)
+        cs = text.c
+        while i < n:
+            if text._char_in(cs[i], ws):
+                i += 1
+                continue
+            if i + 1 >= n:
+                raise ValueError("non-hexadecimal number found in fromhex() arg")
+            pair = SStr([cs[i], cs[i + 1]], [1, 1])
+            try:
+                b = m_unhexlify(pair.encode("latin-1") if False else SBytes([_char8(cs[i]), _char8(cs[i + 1])]))
+            except Exception:
+                raise ValueError("non-hexadecimal number found in fromhex() arg")
+            out += list(SBytes.lift(b).b)
+            i += 2
+        return _norm(SBytes(out))
     maketrans = bytes.maketrans
 
 
